@@ -269,7 +269,13 @@ func init() {
 			fmt.Sscan(dtls.Val().String(), &dv)
 			c.WritersWithin("send-flag", sz, "Association.handleInit", "Association.handleInitAck", "Association.setSendZeroChecksum")
 			ks := keyer{}
+			nReset := 0
 			for _, a := range c.P.Writes(sz) {
+				if IsConstBool(false)(a.Val) {
+					// forgetting the acceptance before a new INIT / INIT-ACK is examined (never a constant true)
+					nReset++
+					continue
+				}
 				b, ok := a.Val.(*ssa.BinOp)
 				okV := ok && b.Op == token.EQL && ((IsLoadOf(edmid)(b.X) && IsConstInt(dv)(b.Y)) || (IsLoadOf(edmid)(b.Y) && IsConstInt(dv)(b.X)))
 				c.Check(okV, ks.key("send-flag-value@"+c.P.FuncName(a.Fn)), c.Pos(a.Instr), "sendZeroChecksum <- peerParam.edmid == DTLS", "sendZeroChecksum set from something other than the peer's parameter")
@@ -296,8 +302,80 @@ func init() {
 					c.Check(fromInbound, ks.key("send-flag-from-inbound@"+c.P.FuncName(a.Fn)), c.Pos(a.Instr), "the parameter examined belongs to the inbound INIT/INIT-ACK", "the parameter examined does not come from the inbound chunk")
 				}
 			}
-			c.WritersWithin("recv-flag", rz, "createAssociationFromConfigWithTsn")
+			// each handler that learns the flag from a parameter list first forgets the previous answer (a restarted peer,
+			// or a rejected INIT-ACK, must not leave a stale "acceptable" behind)
+			for _, hn := range []string{"Association.handleInit", "Association.handleInitAck"} {
+				h := c.Fn(hn)
+				var resets, learns []ssa.Instruction
+				for _, g := range c.P.Region(h) {
+					for _, a := range c.storesIn(g, sz) {
+						if IsConstBool(false)(a.Val) {
+							resets = append(resets, a.Instr)
+						} else {
+							learns = append(learns, a.Instr)
+						}
+					}
+				}
+				for _, l := range learns {
+					ok := false
+					for _, r := range resets {
+						if crossDominates(r, l, 0) || InstrDominates(r, l) {
+							ok = true
+						}
+					}
+					c.Check(ok, ks.key("send-flag-forgotten-first@"+hn), c.Pos(l), "sendZeroChecksum = false dominates the parameter loop", "the flag learnt from a previous INIT / INIT-ACK is never cleared: a peer that no longer declares zero checksums acceptable is still sent them")
+				}
+			}
+			// recvZeroChecksum: from the local option at construction, or — with out-of-band tokens — from the LOCAL token
+			// (first chunk argument of initWithOutOfBandTokens), before the read loop is started
+			c.WritersWithin("recv-flag", rz, "createAssociationFromConfigWithTsn", "Association.initWithOutOfBandTokens")
+			oob := c.Fn("Association.initWithOutOfBandTokens")
+			nOob := 0
 			for _, a := range c.P.Writes(rz) {
+				if (enclosingNamed(a.Fn) == oob || c.P.OwnedBy(a.Fn, map[*ssa.Function]bool{oob: true})) && !IsConstBool(false)(a.Val) {
+					nOob++
+				}
+			}
+			c.Check(nOob >= 1, "recv-flag-from-local-token", c.P.Pos(oob.Pos()), "with out-of-band tokens the acceptance flag is derived from the local token", "initWithOutOfBandTokens does not derive recvZeroChecksum from the local token: what this side accepts can differ from what its token told the peer")
+			for _, a := range c.P.Writes(rz) {
+				if enclosingNamed(a.Fn) == oob || c.P.OwnedBy(a.Fn, map[*ssa.Function]bool{oob: true}) {
+					okT := IsConstBool(false)(a.Val)
+					if b, isB := a.Val.(*ssa.BinOp); isB && b.Op == token.EQL {
+						ev := b.X
+						if _, isK := unconv(ev).(*ssa.Const); isK {
+							ev = b.Y
+						}
+						if ld, isLd := unconv(ev).(*ssa.UnOp); isLd && IsLoadOf(edmid)(ld) {
+							// the parameter examined must come from the local token: derive the root of the type assertion
+							root := addrRoot(ld.X)
+							var src ssa.Value
+							switch r := root.(type) {
+							case *ssa.Extract:
+								if ta, ok := r.Tuple.(*ssa.TypeAssert); ok {
+									src = ta.X
+								}
+							case *ssa.TypeAssert:
+								src = r.X
+							}
+							okT = src != nil && derives(src, func(v ssa.Value) bool {
+								p, isP := resolveParam(v).(*ssa.Parameter)
+								return isP && p.Parent() == oob && len(oob.Params) > 1 && p == oob.Params[1]
+							}, map[ssa.Value]bool{}) || derivesFromLocalToken(src, oob)
+						}
+					}
+					c.Check(okT, ks.key("recv-flag-value@oob"), c.Pos(a.Instr), "recvZeroChecksum <- the LOCAL token's Zero-Checksum-Acceptable parameter (or false)", "recvZeroChecksum not taken from the local token")
+					// set before the loops start (the read loop reads it without the lock)
+					before := true
+					forEachInstr(oob, func(in ssa.Instruction) {
+						if g, isGo := in.(*ssa.Go); isGo && enclosingNamed(a.Fn) == oob && a.Fn == oob {
+							if CanReach(g, a.Instr) {
+								before = false
+							}
+						}
+					})
+					c.Check(before, ks.key("recv-flag-before-loops@oob"), c.Pos(a.Instr), "written before the read/write loops are started", "recvZeroChecksum is written after the read loop was started (it is read there without the lock)")
+					continue
+				}
 				f, _ := loadedField(a.Val)
 				c.Check(f != nil && f.Name() == "EnableZeroChecksum", "recv-flag-value", c.Pos(a.Instr), "recvZeroChecksum <- cfg.EnableZeroChecksum", "recvZeroChecksum not taken from the local option")
 			}
@@ -572,4 +650,51 @@ func constFold(v ssa.Value, d int) (int64, bool) {
 		}
 	}
 	return 0, false
+}
+
+// derivesFromLocalToken: v is (an element of) the params list of the first chunk argument of fn.
+func derivesFromLocalToken(v ssa.Value, fn *ssa.Function) bool {
+	if len(fn.Params) < 2 {
+		return false
+	}
+	seen := map[ssa.Value]bool{}
+	var walk func(v ssa.Value, d int) bool
+	walk = func(v ssa.Value, d int) bool {
+		if v == nil || d > 8 || seen[v] {
+			return false
+		}
+		seen[v] = true
+		switch x := unconv(v).(type) {
+		case *ssa.Parameter:
+			return x == fn.Params[1]
+		case *ssa.UnOp:
+			return walk(x.X, d+1)
+		case *ssa.FieldAddr:
+			return walk(x.X, d+1)
+		case *ssa.Field:
+			return walk(x.X, d+1)
+		case *ssa.IndexAddr:
+			return walk(x.X, d+1)
+		case *ssa.Index:
+			return walk(x.X, d+1)
+		case *ssa.Extract:
+			return walk(x.Tuple, d+1)
+		case *ssa.Next:
+			return walk(x.Iter, d+1)
+		case *ssa.Range:
+			return walk(x.X, d+1)
+		case *ssa.Phi:
+			for _, e := range x.Edges {
+				if walk(e, d+1) {
+					return true
+				}
+			}
+		case *ssa.Slice:
+			return walk(x.X, d+1)
+		case *ssa.TypeAssert:
+			return walk(x.X, d+1)
+		}
+		return false
+	}
+	return walk(v, 0)
 }
